@@ -65,6 +65,15 @@ CHECKS.update({
             "§3-C20", "sampled interleavings; priority judged at release points only; the lock-order-graph directed scheduling of DESIGN §3-C20 is not built"),
 })
 
+CHECKS.update({
+    "C15": (True, "exploration", "model-generated schema submissions (allowed and forbidden edits) through the real api_v1_db_schema on a node holding data; before/after snapshots of sqlite_schema, __corro_schema, contents and the in-memory schema; init_schema(db) vs in-memory; real restarts",
+            "Runtime monitor: a model of the accepted table definitions generates submissions with one seeded edit each (12 forbidden kinds incl. primary-key reorder/extension, dropped/changed columns, late syntax error, valid table followed by a rejected one; 6 allowed kinds); after every submission the monitor checks that nothing that existed was lost or redefined, that a non-200 answer left database and in-memory schema identical, that the in-memory schema equals the one parsed from the database (what a restart loads), that re-applying changes nothing, and restarts the node on the same files at random points.",
+            "§3-C15", "crash exactly between the schema commit and the in-memory swap is covered by the in-memory == stored comparison after each submission, not by crash images"),
+    "C17": (True, "exploration", "raw HTTP requests against a live API listener: route x method x Authorization-shape matrix with effect-bearing bodies; SQL corpus + seeded mutations on the read endpoints; status and before/after digests",
+            "Runtime monitor: a full agent (real router, middleware, handlers) is probed with every route and probing paths x 7 methods x ~25 Authorization shapes derived from a random token (prefixes, suffixes, superstrings, case flips, other schemes), each request carrying a body that would change state if admitted; without the exact bearer token the status must be 4xx and the state digests unchanged, with it never 401/403, and without a configured token never 401. Then ~70 write/DDL/PRAGMA/ATTACH/VACUUM/extension-function statements and their seeded mutations are sent to /v1/queries and /v1/subscriptions and tables, cell metadata, bookkeeping, sqlite_schema, crsql_db_versions, user_version and the file set next to the database must stay identical.",
+            "§3-C17", "lower-case scheme, repeated spaces after the scheme and duplicated headers are recorded, not judged"),
+})
+
 NOT_YET = {
 }
 
